@@ -52,6 +52,8 @@ pub fn run(seed: u64, ntraces: usize) {
         // directed prefix (every third trace): flow one way under a high limit, lower the limit, then a larger transfer the other way
         let mut forced: Vec<(u64, u64)> = vec![];     // (op kind, amount / limit)
         if t % 3 == 0 && cur_token.is_some() { forced = if t % 6 == 0 { vec![(2, 40), (1, 40), (2, 8), (0, 40), (0, 8), (0, 1)] } else { vec![(1, 50), (2, 40), (0, 40), (2, 8), (1, 40), (1, 8)] }; }
+        // directed role schedule (every third trace): propose, accept, hand back, replay the accept; (kind, 10*caller + target) over users [s, op, m, f, x]
+        if t % 3 == 1 && operator.is_some() { forced = vec![(7, 14), (8, 41), (6, 41), (8, 41), (7, 13), (7, 14), (8, 31), (8, 41), (8, 41)]; }
         for _ in 0..(nops + forced.len()) {
             now += if !forced.is_empty() { 1 } else { match r.below(8) { 0 => EPOCH_TIME, 1 => EPOCH_TIME - (now % EPOCH_TIME), 2 => (EPOCH_TIME - (now % EPOCH_TIME)).saturating_sub(1), _ => r.below(500) } };
             w.set_time(now);
@@ -100,8 +102,7 @@ pub fn run(seed: u64, ntraces: usize) {
                     opj = json!({"op": name, "caller": hx(caller.as_bytes()), "a": hx(a.as_bytes()), "b": hx(b.as_bytes())});
                 }
                 6 | 7 | 8 | 9 | 10 | 11 => {
-                    let caller = anyone.clone();
-                    let a = r.pick(&users).clone();
+                    let (caller, a) = if let Some((_, ca)) = fo { (users[(ca / 10) as usize].clone(), users[(ca % 10) as usize].clone()) } else { (anyone.clone(), r.pick(&users).clone()) };
                     let (name, ep) = match k { 6 => ("transferOp", "transferOperatorship"), 7 => ("proposeOp", "proposeOperatorship"), 8 => ("acceptOp", "acceptOperatorship"),
                                                9 => ("transferMint", "transferMintership"), 10 => ("proposeMint", "proposeMintership"), _ => ("acceptMint", "acceptMintership") };
                     step = w.tx(&caller, &tmaddr, ep, vec![a.to_vec()], &bn(0), &[]);
